@@ -157,6 +157,7 @@ def run(ctx):
         if rn:
             names = {n for kind, n in tables.sink_of(project, rf, rn[0]) if kind in ("param", "attr")}
             ctx.ob("C16.R3", F + ":construct_variable", "variable key %r reaches ir.Variable.%s" % (key, field), field in names, construct="sink:variable:" + key, detail=str(sorted(names)))
+    _types_and_placeholders(ctx)
 
 
 def _scope_rule(ctx):
@@ -174,3 +175,53 @@ def _scope_rule(ctx):
     st = [x for x in _w(df) if isinstance(x, _a.Assign) and "value_map" in _n(x.targets[0])]
     ok = bool(st) and _n(st[0].targets[0]).startswith("self.scopes[-1].value_map[")
     ctx.ob(rid, "ppci/irutils/io.py:DictReader.register_value", "a new value is defined in the innermost scope", ok, construct="define-innermost")
+
+
+def _types_and_placeholders(ctx):
+    import ast as _a
+    from ..core import norm as _n, walk_no_nested as _w, last_name as _l
+    from ..tables import eq_branches
+    from ..shapes import get_or_create
+    from .. import sym
+    IO = "ppci/irutils/io.py"
+    ctx.rule("C16.R5", "types: a blob type read back is determined by BOTH its size and its alignment (construction and any cache key); basic types are looked up by name among ir.all_types", floor=3)
+    gt = ctx.fn(IO, "DictReader.get_type")
+    site = IO + ":DictReader.get_type"
+    br = eq_branches(gt, "tkind") or eq_branches(gt, "json_type['kind']")
+    ctx.need("blob" in br and "basic" in br, "get_type: kind dispatch not found")
+    body = br["blob"][1]
+    env = {}
+    for s in body:
+        if isinstance(s, _a.Assign) and isinstance(s.targets[0], _a.Name) and s.targets[0].id not in env:
+            env[s.targets[0].id] = s.value
+    mk = [c for s in body for c in _a.walk(s) if isinstance(c, _a.Call) and _n(c.func) == "ir.BlobDataTyp"]
+    ok = len(mk) >= 1
+    for c in mk:
+        args = [_n(sym.deep_inline(a, env)) for a in c.args]
+        ok = ok and len(args) == 2 and "['size']" in args[0] and "['alignment']" in args[1]
+    ctx.ob("C16.R5", site, "a blob type is built as BlobDataTyp(size, alignment) from the two keys of the record", ok, construct="blob-from-size-and-alignment", detail=str([_n(c) for c in mk]))
+    keys = [n.slice for s in body for n in _a.walk(s) if isinstance(n, _a.Subscript) and not _n(n.value).startswith("json_type") and not isinstance(n.slice, _a.Constant)]
+    keys += [c.args[0] for s in body for c in _a.walk(s) if isinstance(c, _a.Call) and _l(c) in ("get", "setdefault") and c.args and not _n(c.func.value).startswith("json_type")]
+    if keys:
+        full = all("['size']" in _n(sym.deep_inline(k, env)) and "['alignment']" in _n(sym.deep_inline(k, env)) for k in keys)
+        ctx.ob("C16.R5", site, "a cache of decoded blob types is keyed by size AND alignment (two blobs of one size may differ in alignment)", full, construct="blob-cache-key", detail=str([_n(sym.deep_inline(k, env)) for k in keys]))
+    else:
+        ctx.ob("C16.R5", site, "blob types are not cached (nothing to key)", True, construct="blob-cache-key")
+    bb = br["basic"][1]
+    ok = any("ir.all_types" in _n(s) for s in bb) and any("json_type['name']" in _n(s) for s in bb)
+    ctx.ob("C16.R5", site, "a basic type is found by its name among ir.all_types", ok, construct="basic-by-name")
+    # forward references (same idiom as the text reader)
+    rid = "C16.R6"
+    ctx.rule(rid, "forward references: one registered placeholder per undefined name, replaced when the value is registered", floor=4)
+    fv = ctx.fn(IO, "DictReader.get_value_ref")
+    g = get_or_create(fv, lambda c: _n(c.func) == "ir.Undefined")
+    ctx.need(g is not None, "get_value_ref: creation of the placeholder not found")
+    site = IO + ":DictReader.get_value_ref"
+    ctx.ob(rid, site, "a placeholder is created only when none is registered for the name", g["guarded"], construct="create-only-if-absent", node=g["node"])
+    ctx.ob(rid, site, "the new placeholder is registered under the name", g["stored"], construct="registered", node=g["node"])
+    ctx.ob(rid, site, "a second use of the name returns the registered placeholder", g["reused"], construct="registered-one-reused", node=g["node"])
+    rv = ctx.fn(IO, "DictReader.register_value")
+    rep = [c for c in _a.walk(rv) if isinstance(c, _a.Call) and _l(c) == "replace_by"]
+    pops = [n for n in _a.walk(rv) if isinstance(n, _a.Assign) and isinstance(n.value, _a.Call) and _l(n.value) == "pop" and g["registry"] and _n(n.value.func.value) == g["registry"]]
+    ok = len(rep) == 1 and len(pops) == 1 and _n(rep[0].func.value) == _n(pops[0].targets[0]) and _n(rep[0].args[0]) == rv.args.args[1].arg
+    ctx.ob(rid, IO + ":DictReader.register_value", "registering a value takes its placeholder out of the registry and replaces all its uses", ok, construct="patch-on-register")
